@@ -365,7 +365,7 @@ def _path_naming_input(ctx, esc, fi, node, it):
                             if av[3].getwidth()[0] >= 1:
                                 return 'group %d of %r matches at least one character' % (gi, rx.pattern)
             return None
-        if fi.qual == 'wpull.path:safe_filename' and nm == 'new_filename':
+        if fi.qual == 'wpull.path:safe_filename' and nm not in fi.params:
             # parts are non-empty: directory parts are filtered by truthiness and the file name falls back to the index name
             # (C15-D3 decides that); the Content-Disposition name is used only `if filename:`
             ok = True
@@ -605,8 +605,11 @@ def _d7_pasv(ctx):
                 derived.add(n)
                 changed = True
 
+    polarity = {}
+
     def covers(test):
-        """group numbers that `test` compares with 255/256 (None = all, through .groups())"""
+        """group numbers that `test` compares with 255/256 (None = all, through .groups()); polarity[id(test)] is True when
+        the comparison found reads "number is out of range" (so the true edge must refuse), False when it reads "in range" """
         out = set()
         for cmp_ in [x for x in ast.walk(test) if isinstance(x, ast.Compare) and len(x.ops) == 1]:
             a, b = cmp_.left, cmp_.comparators[0]
@@ -619,6 +622,7 @@ def _d7_pasv(ctx):
             if not ((isinstance(op, ast.Gt) and b.value == 255) or (isinstance(op, ast.GtE) and b.value == 256)
                     or (isinstance(op, ast.LtE) and b.value == 255) or (isinstance(op, ast.Lt) and b.value == 256)):
                 continue
+            polarity[id(test)] = isinstance(op, (ast.Gt, ast.GtE))
             names = {x.id for x in ast.walk(a) if isinstance(x, ast.Name)}
             # comprehension variables iterating over match.groups() / derived lists
             scope = test
@@ -643,9 +647,11 @@ def _d7_pasv(ctx):
         if cov is not None and not set(big) <= cov:
             continue
         # refusing edge: the edge on which some number is out of range leads to a raise of ValueError, never to a return
-        inverted = any(isinstance(x, ast.Compare) and isinstance(x.ops[0], (ast.LtE, ast.Lt)) for x in ast.walk(n.stmt.test)) \
-            != (isinstance(n.stmt.test, ast.UnaryOp) and isinstance(n.stmt.test.op, ast.Not))
-        bad_edge = 'F' if inverted else 'T'
+        out_of_range_when_true = polarity.get(id(n.stmt.test), True)
+        if isinstance(n.stmt.test, ast.UnaryOp) and isinstance(n.stmt.test.op, ast.Not):
+            out_of_range_when_true = not out_of_range_when_true
+        # `all(x <= 255 ...)` reads "in range": the refusing edge is then the false one
+        bad_edge = 'T' if out_of_range_when_true else 'F'
         leak = cfg.find_path(n, lambda m: m in rets, edge_ok=F.normal, first_edges=lambda a, b, k: k == bad_edge)
         byp = [cfg.find_path(cfg.entry, lambda m, r=r: m is r, edge_ok=F.normal, stop=lambda m: m is n) for r in rets]
         if leak is None and all(b is None for b in byp):
